@@ -4,6 +4,9 @@ import graphs as gr
 PROP = "C04"
 RULE = ("every labelled DAG(n), n<=4 quick / n<=5 thorough, each under the given and 2 seeded random node/edge insertion "
         "orders; seeded random DAGs n<=9 (quick) / n<=12 (thorough), 30% with isolated nodes and several components forced; "
+        "a repeat stream (every DAG(n) n<=4 + random: dag_to_cpdag called on a first graph, 1-2 edges added and/or one removed on "
+        "the SAME DiGraph object, second result compared with the model of the final DAG) and an attrs stream (edges/nodes carry "
+        "pre-existing 'order'/'label' attributes with arbitrary values incl. the EDGELABELS members); "
         "the model is run at networkx's actual topological order of the very DiGraph handed to the code; brute-force "
         "oracle (all orientations of the skeleton) when |E|<=12. distinct by canonical DAG; non-trivial = the CPDAG has "
         "both a directed and an undirected edge, or an isolated node")
@@ -67,11 +70,37 @@ def components_dag(rng, n):
     return gr.G(range(n), D=D)
 
 
+def repeat_variant(rng, g):
+    """second-call case: final DAG g; some of its edges are added only after the first call, and possibly one extra
+    edge (forward w.r.t. a topological order of g, so every intermediate graph is acyclic) exists at the first call only"""
+    D = [list(e) for e in g["D"]]
+    k = rng.randint(1, 2) if D else 0
+    drop = rng.sample(D, min(k, len(D)))
+    extra = []
+    if rng.random() < 0.4 or not drop:
+        import networkx as nx
+        H = nx.DiGraph()
+        H.add_nodes_from(g["V"])
+        H.add_edges_from(map(tuple, D))
+        order = list(nx.topological_sort(H))
+        cand = [[order[i], order[j]] for i in range(len(order)) for j in range(i + 1, len(order))
+                if [order[i], order[j]] not in D]
+        if cand:
+            extra = [rng.choice(cand)]
+    return {"g": g, "drop": drop, "extra": extra, "repeat": True}
+
+
 def gen_cases(tier, rng):
     nmax = 4 if tier == "quick" else 5
     for n in range(1, nmax + 1):
         for g in gr.enum_dag(n):
             yield from _maybe_orders(g, "dag%d" % n)
+    # second call on the same DiGraph object after edges were added / removed; pre-existing "order"/"label" attributes
+    for n in range(2, 5):
+        for g in gr.enum_dag(n):
+            for rep in range(2 if n == 4 else 3):
+                yield dict(repeat_variant(rng, g), kind="repeat%d" % n)
+            yield {"kind": "attrs%d" % n, "g": g, "attrs": rng.randint(0, 10 ** 6)}
     nr = 400 if tier == "quick" else 4000
     for i in range(nr):
         n = rng.randint(5, 9 if tier == "quick" else 12)
@@ -80,14 +109,67 @@ def gen_cases(tier, rng):
         else:
             g = random_dag(rng, n, rng.choice([0.15, 0.3, 0.45, 0.6]))
         c = {"kind": "rand", "g": g}
+        r = rng.random()
+        if r < 0.25:
+            c = dict(repeat_variant(rng, g), kind="randrepeat")
+        elif r < 0.4:
+            c["attrs"] = rng.randint(0, 10 ** 6)
+            c["kind"] = "randattrs"
         if rng.random() < 0.5:
             c["_order"] = rng.randint(3, 10 ** 6)
         yield c
 
 
+ATTR_VALUES = [None, 0, 1, 7, -3, "compelled", "reversible", "unknown", "x", "ENUM_C", "ENUM_R", "ENUM_U"]
+
+
+def _attr_value(r):
+    v = r.choice(ATTR_VALUES)
+    if isinstance(v, str) and v.startswith("ENUM_"):
+        from pywhy_graphs.algorithms.cpdag import EDGELABELS
+        return {"C": EDGELABELS.COMPELLED, "R": EDGELABELS.REVERSIBLE, "U": EDGELABELS.UNKNOWN}[v[-1]]
+    return v
+
+
+def decorate(Dg, seed):
+    """pre-existing node/edge attributes named like the algorithm's own ("order", "label") with arbitrary values"""
+    import random as _r
+    r = _r.Random("attrs:%s" % seed)
+    for u, v in Dg.edges:
+        for name in ("order", "label"):
+            if r.random() < 0.7:
+                Dg[u][v][name] = _attr_value(r)
+    for n in Dg.nodes:
+        for name in ("order", "label"):
+            if r.random() < 0.3:
+                Dg.nodes[n][name] = _attr_value(r)
+
+
+def build(case, first_call=None):
+    """the DiGraph handed to the code.  case["drop"]: edges of g added only AFTER a first call; case["extra"]: edges
+    present at the first call and removed before the second; case["attrs"]: seed of pre-existing attributes.
+    first_call(Dg) is run on the initial graph (only by run_impl; it does not change nodes/edges, so the
+    topological order computed by encode() without it is the one the code sees)."""
+    g = case["g"]
+    drop = [list(e) for e in case.get("drop", [])]
+    extra = [list(e) for e in case.get("extra", [])]
+    g0 = dict(g, D=[e for e in g["D"] if e not in drop] + extra)
+    Dg, lab, inv = gr.to_digraph(g0, case)
+    if case.get("attrs") is not None:
+        decorate(Dg, case["attrs"])
+    if drop or extra or case.get("repeat"):
+        if first_call is not None:
+            first_call(Dg)
+        for a, b in extra:
+            Dg.remove_edge(lab(a), lab(b))
+        for a, b in drop:
+            Dg.add_edge(lab(a), lab(b))
+    return Dg, lab, inv
+
+
 def topo_order(case):
     import networkx as nx
-    Dg, lab, inv = gr.to_digraph(case["g"], case)
+    Dg, lab, inv = build(case)
     return [inv(v) for v in nx.topological_sort(Dg)]
 
 
@@ -106,7 +188,7 @@ def decode(case, v):
 
 def run_impl(case):
     from pywhy_graphs.algorithms import dag_to_cpdag
-    Dg, lab, inv = gr.to_digraph(case["g"], case)
+    Dg, lab, inv = build(case, first_call=dag_to_cpdag)
     C = dag_to_cpdag(Dg)
     return {"nodes": sorted(inv(v) for v in C.nodes),
             "directed": sorted([inv(a), inv(b)] for a, b in C.directed_edges),
@@ -139,7 +221,8 @@ def nontrivial(case, model):
 
 
 def key(case):
-    return gr.canon(case["g"])
+    return (gr.canon(case["g"]), tuple(map(tuple, case.get("drop", []))), tuple(map(tuple, case.get("extra", []))),
+            case.get("attrs"))
 
 
 def classify(case, impl, model):
@@ -148,4 +231,14 @@ def classify(case, impl, model):
 
 def shrink(case):
     for h in gr.shrink_graph(case["g"]):
-        yield dict(case, g=h)
+        c = dict(case, g=h)
+        vs = set(h["V"])
+        if "drop" in case:
+            c["drop"] = [e for e in case["drop"] if e in h["D"]]
+            c["extra"] = [e for e in case["extra"] if e[0] in vs and e[1] in vs and e not in h["D"]]
+            if not gr.is_acyclic(h["V"], [e for e in h["D"] if e not in c["drop"]] + c["extra"]):
+                continue
+        yield c
+    for f in ("drop", "extra"):
+        for i in range(len(case.get(f, []))):
+            yield dict(case, **{f: case[f][:i] + case[f][i + 1:]})
